@@ -21,6 +21,10 @@ def parseApi (parts : List String) : Option ApiCall :=
   | ["delete"] => some .delete
   | ["deletenow"] => some .deleteNow
   | ["run", id] => some (.run id.toNat!)
+  | ["runasync", id] => some (.runAsync id.toNat!)
+  | ["seterrasync"] => some .setAsyncErrorHandler
+  | ["sethookasync"] => some .setSpawnAsyncHook
+  | ["sethook"] => some .setSpawnHook
   | ["seterr"] => some .setErrorHandler
   | ["unseterr"] => some .unsetErrorHandler
   | _ => none
